@@ -127,6 +127,7 @@ def run_harness(ctx, name, body, fs='default', models=None, subst=(), timeout=No
         else:
             h.kinds[k] += 1; h.results.append(r)
     ctx.harnesses.append(h)
+    if os.environ.get('VERIF_DEBUG'): print('  [harness] %-50s %6.2fs paths=%d queries=%d solver=%.2fs' % (name, h.wall, sum(h.kinds.values()), h.stats.get('queries', 0), h.stats.get('solver_ms', 0) / 1000.0), dict(h.kinds), flush=True)
     bad = [r for r in h.results if r['kind'] in ('inconclusive', 'error', 'timeout', 'uncaught_panic')]
     if bad:
         raise CheckInconclusive('%s: %d undecided path(s); first: %s' % (name, len(bad), json.dumps(bad[0])[:1200]))
